@@ -464,8 +464,16 @@ def decide(pid, tier, seed, replay=None):
                 rc, o, dt = run_harness(pid, bins[prof], tier, rseed, outdir, replay=rfile,
                                         extra=["--profile", prof] if len(profiles) > 1 else None)
                 if rc != 0:
-                    violations.append(dict(kind="broken-correspondence",
-                                           what=f"harness run failed ({rname}, rc={rc}): " + o[-1500:], case=""))
+                    # the harness names the case it is executing when a crash of the whole process is possible
+                    infl = [f for f in sorted(os.listdir(outdir)) if f.startswith("inflight")] if os.path.isdir(outdir) else []
+                    if infl:
+                        for f in infl:
+                            violations.append(dict(kind="failing-input",
+                                                   what=f"the implementation aborted the process on this case ({rname}, rc={rc}): " + o[-600:],
+                                                   case=open(os.path.join(outdir, f)).read().strip()))
+                    else:
+                        violations.append(dict(kind="broken-correspondence",
+                                               what=f"harness run failed ({rname}, rc={rc}): " + o[-1500:], case=""))
                     continue
                 for s in suites:
                     if s.get("profile", "debug") != prof:
